@@ -65,10 +65,10 @@ def run(ctx):
     for r in rets:
         needs_angle = G.gated(fi, r, e_angle_true)
         needs_not = G.gated(fi, r, e_angle_false)
-        # probe: the exists()/resolve_filename() call whose true edge gates this return, nearest
+        # probe: the exists()/is_regular_file()/resolve_filename() call whose true edge gates this return, nearest
         best = None
         for n in fi.walk():
-            if n.get("k") == "call" and callee_short(n) in ("exists", "resolve_filename") and "this" in n:
+            if n.get("k") == "call" and callee_short(n) in ("exists", "is_regular_file", "resolve_filename") and "this" in n:
                 def this_probe(atom, truth, n=n):
                     return atom is n and truth
                 if G.gated(fi, r, G.edges_where(fi, this_probe)):
@@ -117,6 +117,21 @@ def run(ctx):
         ctx.ob("R17.1", "find_include|probe#%d|%s" % (i, want[1]), got == want, fi.loc(rets[i]) if i < len(rets) else fi.loc(),
                "probe %d is %s, documented %s  (angle?, where, ownership)" % (i, got, want))
     ctx.ob("R17.1", "find_include|no-extra-probe", len(seq) == len(REFERENCE), fi.loc(), "%d successful-return sites, documented %d" % (len(seq), len(REFERENCE)))
+    # R17.7: a probe made by find_include itself must not be satisfied by a directory (F-C17b: a directory `vector` in the
+    # working directory shadowed inc/vector; the "file" was opened, yielded nothing, and no warning was printed)
+    ctx.rule("R17.7", "the probes find_include makes itself (cwd, includer's directory, each -I/-S directory) ask for a regular file: is_regular_file(), or exists() together with !is_directory()")
+    n7 = 0
+    for i, b in enumerate(probes):
+        if b is None or callee_short(b) == "resolve_filename":
+            continue
+        n7 += 1
+        ok7 = callee_short(b) == "is_regular_file"
+        if not ok7:
+            obj = show(b["this"])
+            nd = G.edges_where(fi, lambda atom, truth, obj=obj: atom is not None and atom.get("k") == "call" and callee_short(atom) == "is_directory" and show(atom.get("this")) == obj and not truth)
+            ok7 = bool(nd) and G.gated(fi, rets[i], nd)
+        ctx.ob("R17.7", "find_include|probe#%d|%s|not-a-directory" % (i, seq[i][1]), ok7, fi.loc(b), "probe `%s` %s a directory" % (show(b)[:40], "cannot be satisfied by" if ok7 else "is satisfied by"))
+    ctx.floor("R17.7", "direct probes in find_include", n7, 3)
     # order: a later probe of the same mode is reached only after the earlier one failed
     for i in range(len(rets)):
         for j in range(i + 1, len(rets)):
